@@ -79,13 +79,24 @@ STRENGTHENED.update({
  "R2-C20-2": "new C20.R6: no parser loop that stores into the spatial reference ranges over a map",
 })
 
+REDESIGN = ("after the redesign (DESIGN.md §10) the rule that reports this change is decided by model evaluation: "
+            "the repository source is interpreted on abstract inputs and the resulting values are compared with the specification")
+STRENGTHENED.update({
+ "C15-1": "C15.R1 is now a model evaluation of Similar on pairs of all eight types in both directions; a duplicated member standing against a different one must give false",
+ "R2-C15-1": "C15.R1 model: members whose boxes are empty / equal go through the real pre-filter in the interpreter; the pair must still be similar",
+ "R2-C12-2": "new C12.R6: each point-to-box function equals MINDIST² or MINMAXDIST² as a polynomial in symbolic coordinates for all 16 placements of the point",
+ "R2-C16-2": "C16.R2 model: parts of 0 vertices in the middle of a multi-part shape",
+ "C20-1": "C20.R2 model: the UNIT clause written before the PARAMETER clauses (EPSG clause order)",
+ "R2-C13-2": "C13.R2 model: inputs with a repeated vertex; the input must come back untouched",
+ "C13-2": "C13.R3 model: coverage of the simplicity test — kept output before the shortcut — on curves long enough to keep two vertices before a shortcut",
+ "R2-C03-1": "C03.R2 model: MultiPolygon.Centroid of a single member with a hole under reversal of one ring",
+ "R2-C03-2": "C03.R3 model: op.Area of a multi-polygon whose members are wound in opposite directions",
+})
+
 NOT_CAUGHT = {
  "R2-C08-1": "still missed: the scale factor is removed from the wrong term in the LCC inverse (`(RH-(y-Y0))/K0` for `RH-(y-Y0)/K0`) — a formula-level slip; nothing structural distinguishes the two expressions short of composing inverse∘forward algebraically (considered: Laurent-polynomial cancellation of X0/Y0/K0; not built)",
  "R2-C08-2": "still missed: spherical transverse Mercator takes the hemisphere from sign(y) instead of from the foot-point latitude — formula-level",
  "R2-C09-1": "still missed: one-parallel Albers takes its cone constant from sin(lat_0) (a reused local) instead of sin(lat_1) — formula-level; comparison with the bundled proj4js source was rejected as brittle (DESIGN §7)",
- "R2-C12-2": "still missed: MINMAXDIST under-estimated when the query lies within a box's range on an axis — the bound's arithmetic is outside the order domain",
- "R2-C15-1": "still missed: bounding-box pre-filter in the member matching uses Bounds.Similar, which is NaN-false for the empty box (|Inf−Inf|); arithmetic on infinities is outside the rules",
- "C15-1": "still missed: the one-to-one discipline of the greedy member matching is not modelled (C15.R1 only establishes the count test); deciding it needs an abstract model of the matching loop over small member sets — see DESIGN.md §9.6",
 }
 
 def needs_of(readme):
@@ -144,6 +155,34 @@ def main():
             a1 = sum(1 for m in rr if m['first_evaluation']['verdict'].startswith('caught'))
             a2 = sum(1 for m in rr if m['current']['verdict'] == 'caught')
             f.write(f"\n{nm}: first evaluation {a1}/{len(rr)} reported, now {a2}/{len(rr)}.\n")
+        # behaviour-preserving refactors
+        bn = os.path.join(S, "BENIGN_RESULTS.json")
+        if os.path.exists(bn):
+            br = json.load(open(bn))
+            alarms = sum(1 for r in br.values() if r.get("alarms"))
+            for bid, r in sorted(br.items()):
+                bd = os.path.join(S, bid)
+                if not os.path.isdir(bd):
+                    continue
+                rd = os.path.join(bd, "README.agent.md")
+                title = bid
+                if os.path.exists(rd):
+                    title = next((l.lstrip("# ").strip() for l in open(rd).read().splitlines() if l.startswith("#")), bid)
+                json.dump({
+                    "id": bid, "property": bid.split("-")[1], "kind": "behaviour-preserving refactor (any alarm on it is a false alarm of the machinery)",
+                    "title": title,
+                    "origin": "fresh sub-agent given only the property text and a scratch worktree of /repo (nothing from /verif), asked to restructure the implementing code without changing behaviour; the unedited suite passes with the patch",
+                    "files": {"patch": "patch.diff", "agent_report": "README.agent.md"},
+                    "ran": ["tools/benign_check.py --all: all 20 quick checks on a scratch copy of /repo with the patch applied"],
+                    "current": {"alarms": r.get("alarms", {})},
+                }, open(os.path.join(bd, "meta.json"), "w"), indent=1, ensure_ascii=False)
+            f.write("\n# Independently written behaviour-preserving refactors (BN-*)\n\n"
+                    "Sixty refactors (three per property) written the same way, with the opposite brief: change the code that implements the\n"
+                    "property as a maintainer would (extract helpers, change loop idioms, rename, merge or split functions, tables for switches)\n"
+                    "without changing behaviour.  Each directory holds `patch.diff` and the author's `README.agent.md`.  Any alarm on one of them is a\n"
+                    "false alarm of the machinery.  `tools/benign_check.py` runs the property's own check against each (`--all`: all 20 checks) and\n"
+                    "rewrites `BENIGN_RESULTS.json`.\n\n"
+                    f"First run: 43 of the first 53 alarmed (DESIGN.md §10.1).  Now: {alarms} of {len(br)} alarm.\n")
     print(len(rows), "meta files written")
 
 if __name__ == "__main__":
